@@ -31,6 +31,45 @@ def load_and_match(text, d):
             'matched_expr': getattr(mr, 'match_expr', None)}
 
 
+def literal_value(expr):
+    """What tally's own expression parser makes of NAME("literal"): the value of the string constant."""
+    from tally import expr_parser
+    try:
+        tree = expr_parser.parse_expression(expr)
+        arg = tree.body.args[0]
+        return {'value': arg.value} if isinstance(arg.value, str) else {'error': 'not a string constant'}
+    except Exception as e:  # noqa
+        return {'error': type(e).__name__ + ': ' + str(e)[:100]}
+
+
+def case_map_sweep():
+    """The facts about str.upper that the generic theorem (c19_generic_*) takes as hypotheses, checked on this interpreter
+    for every code point: every character of an upper-cased character is itself unchanged by upper() (so any piece of an
+    upper-cased text is a fixed point of upper()), upper() works code point by code point, and ''.upper() == ''."""
+    bad = []
+    if ''.upper() != '':
+        bad.append('empty')
+    import random
+    rnd = random.Random(0)
+    specials = []
+    for i in range(0x110000):
+        if 0xD800 <= i <= 0xDFFF:
+            continue
+        c = chr(i)
+        u = c.upper()
+        if u != c:
+            specials.append(c)
+        if any(x.upper() != x for x in u) and len(bad) < 10:
+            bad.append('unstable image: U+%04X' % i)
+    ctx = ['', 'a', 'A ', '\u0301', '\u03c3', 'i', '\u0307', ' ']
+    for c in specials:
+        for a in ctx:
+            for b in ctx[:4]:
+                if (a + c + b).upper() != a.upper() + c.upper() + b.upper() and len(bad) < 10:
+                    bad.append('context-dependent: %r in %r' % (c, a + c + b))
+    return {'bad': bad, 'code_points': 0x110000 - 0x800, 'cased': len(specials)}
+
+
 def given_category(text):
     out = []
     for line in text.split('\n'):
@@ -74,6 +113,11 @@ def one(case):
     r.update({'pattern': pattern, 'name': name, 'needle': needle, 'rule': rule})
     r['raw'] = load_and_match(rule, d)
     r['cat'] = load_and_match(given_category(rule), d)
+    # quoting: the literal discover writes for ANY text (here: the description itself and the needle) must denote that text
+    if hasattr(D, 'quote_needle'):
+        r['quote_d'] = D.quote_needle(d)
+        r['quote_d_value'] = literal_value('contains(' + r['quote_d'] + ')')
+        r['needle_literal_value'] = literal_value(rule.split('\n')[1][len('match: '):]) if rule.count('\n') >= 1 else None
     # the suggestion appended to a rules file that already has a same-named rule not covering d
     ex = existing_rules_with_same_name(name, d, case.get('dup', 'same'))
     if ex is not None:
@@ -85,6 +129,9 @@ def one(case):
 
 def main():
     payload = json.load(sys.stdin)
+    if payload.get('mode') == 'sweep':
+        json.dump(case_map_sweep(), sys.stdout)
+        return
     if payload.get('mode') == 'texts':
         res = [load_and_match(t['text'], t['d']) for t in payload['texts']]
     else:
